@@ -18,7 +18,7 @@ TECHNIQUE = ("Coq theorem about a table that a fail-closed translator regenerate
 LEVEL_TEXT = ("Partial, with recorded findings. Unbounded proof: each of the 77 translated arithmetic, bitwise, shift, "
               "negation and cast instructions on int and long (three-register, 2addr, lit16, lit8, rsub, the sign flip of "
               "add-int/lit8) prints a Java expression that, for ALL operand values, yields the instruction's result and "
-              "throws exactly when the instruction throws; the table covers every such opcode. Not proved: register "
+              "throws exactly when the instruction throws; the table covers every such opcode; each of the twelve conditional branches (if-eq .. if-le, if-eqz .. if-lez) is printed as a comparison that is true exactly when the instruction branches, and the table CONDS used to negate comparisons maps every operator to its complement (all operand values). Not proved: register "
               "propagation, dead-code elimination, control-flow structuring and the writer; for these, random structured "
               "methods (ifs, bounded loops, switches, all instruction forms) and targeted shapes are decompiled, compiled by "
               "javac, executed on boundary argument tuples and compared with an interpreter of the bytecode. Four classes of "
@@ -123,6 +123,61 @@ def oracle_single(case, res):
     return None
 
 
+# ---- one conditional branch per method -------------------------------------------------------------------------------------
+def cond_methods():
+    """-> [(method, opcode)]: `if-<cmp> a, b, L ; return 0 ; L: return 1` and the same with if-<cmp>z, as flat code"""
+    out = []
+    for k, cmp_ in enumerate(("eq", "ne", "lt", "ge", "gt", "le")):
+        for z_, opc in ((False, 0x32 + k), (True, 0x38 + k)):
+            flat = [("br", cmp_, "p0", None if z_ else "p1", "T"), ("const", "i0", 0), ("ret", "i0"), ("label", "T"), ("const", "i0", 1), ("ret", "i0")]
+            out.append(({"name": "c%d" % len(out), "ret": "I", "params": ["I", "I"], "flat": flat}, opc))
+    # the branch skips an assignment: the decompiler has to print the complementary comparison (table CONDS)
+    for k, cmp_ in enumerate(("eq", "ne", "lt", "ge", "gt", "le")):
+        for z_, opc in ((False, 0x32 + k), (True, 0x38 + k)):
+            flat = [("const", "i0", 1), ("br", cmp_, "p0", None if z_ else "p1", "J"), ("const", "i0", 0), ("label", "J"), ("ret", "i0")]
+            out.append(({"name": "c%d" % len(out), "ret": "I", "params": ["I", "I"], "flat": flat}, opc))
+    return out
+
+
+def gen_cond(rng, tier, ctx):
+    ms = cond_methods()
+    argsets = []
+    for m, opc in ms:
+        tuples = [(a, b) for a in (0, 1, -1, 7, 2**31 - 1, -2**31) for b in (0, 1, -1, 7, -2**31)]
+        tuples += [(rng.choice(I_EDGE), rng.choice(I_EDGE)) for _ in range(20 if tier == "thorough" else 6)]
+        argsets.append(tuples)
+    return [(argsets,)]
+
+
+def impl_cond(case):
+    (argsets,) = case
+    methods = [m for m, _ in cond_methods()]
+    src = J.decompile(J.build_dex(methods))
+    res = J.run_java(src, methods, {m["name"]: a for m, a in zip(methods, argsets)})
+    if isinstance(res, str):
+        return {"error": res, "source": src}
+    return {"values": [res[m["name"]] for m in methods], "source": src}
+
+
+def coq_cond(case):
+    (argsets,) = case
+    return coq_list([coq_list(["(%s, (%s, %s))" % (z(opc), z(a), z(b)) for a, b in tuples]) for (m, opc), tuples in zip(cond_methods(), argsets)])
+
+
+def oracle_cond(case, res):
+    if isinstance(res, Err):
+        return "decompiling or running failed: %s %s" % (res.name, res.msg[:200])
+    if "error" in res:
+        return "the decompiled class is not accepted or does not run: %s\n%s" % (res["error"][:300], res["source"][:600])
+    (argsets,) = case
+    for (m, opc), tuples, got in zip(cond_methods(), argsets, res["values"]):
+        for t, g in zip(tuples, got):
+            w = J.interpret(m, t)
+            if g != w:
+                return "opcode 0x%02x on %r: the decompiled source returns %r, the bytecode %r" % (opc, t, g, w)
+    return None
+
+
 # ---- structured methods ---------------------------------------------------------------------------------------------------
 def gen_structured(rng, tier, ctx):
     """case = (methods, argument tuples per method); several methods share one class and one compiler run"""
@@ -222,6 +277,9 @@ STREAMS = [
     {"name": "single-instructions", "gen": gen_single, "impl": impl_single, "canon": canon_single, "coq_header": COQ_HEADER,
      "coq_type": "list (list (Z * (Z * Z)))", "coq_input": coq_single, "coq_obs": "(fun ls => VList (map (fun l => VList (map obs_op l)) ls))",
      "model_vo": "Dad/OpSemantics.vo", "pinned": False, "oracle": oracle_single, "shard": 2, "case_timeout": 300},
+    {"name": "single-conditions", "gen": gen_cond, "impl": impl_cond, "canon": lambda r: Err("Other", r["error"][:200]) if "error" in r else r["values"], "coq_header": COQ_HEADER,
+     "coq_type": "list (list (Z * (Z * Z)))", "coq_input": coq_cond, "coq_obs": "(fun ls => VList (map (fun l => VList (map obs_branch l)) ls))",
+     "model_vo": "Dad/OpSemantics.vo", "pinned": False, "oracle": oracle_cond, "shard": 2, "case_timeout": 300},
     {"name": "structured-methods", "gen": gen_structured, "impl": impl_structured, "oracle": oracle_structured, "classify": classify,
      "stats": stats_structured, "case_timeout": 600},
 ]
